@@ -17,15 +17,31 @@ from harness.export import render_scenario_tla
 
 
 def variant_content(sp):
-    """same layout (names, bounds), different content"""
+    """same name, same layout (names, bounds, sizes), different content: host services, firewall, exploit and
+    escalation definitions, values"""
     v = copy.deepcopy(sp)
-    v["name"] = sp["name"] + "_content"
     hs = list(v["hosts"].keys())
     for i, h in enumerate(hs):
         d = v["hosts"][h]
         d["srv"] = [sp["services"][(i + 1) % len(sp["services"])]]
         d["value"] = 0
     v["fw"] = {k: list(sp["services"]) for k in sp["fw"]}
+    srv = list(sp["services"])
+    for j, (n, e) in enumerate(v["exploits"].items()):
+        e["service"] = srv[(srv.index(e["service"]) + 1) % len(srv)]
+        e["cost"] = e["cost"] + 1.5
+        e["prob"] = 1.0 if e["prob"] < 1.0 else 0.5
+        e["os"] = None
+    for j, (n, e) in enumerate(v["privescs"].items()):
+        e["cost"] = e["cost"] + 0.5
+    return v
+
+
+def variant_host_order(sp):
+    """the same network with the hosts listed in another order (another address -> row mapping)"""
+    v = copy.deepcopy(sp)
+    items = list(v["hosts"].items())
+    v["hosts"] = dict(items[1:] + items[:1])
     return v
 
 
@@ -59,6 +75,7 @@ def pairs(tier):
     S = corpus.SPECS
     ps = [("same_scenario", [S["user_only"], S["user_only"]]),
           ("same_layout_other_content", [S["fw_asym"], variant_content(S["fw_asym"])]),
+          ("same_layout_other_host_order", [S["two_layer"], variant_host_order(S["two_layer"])]),
           ("different_sizes", [S["user_only"], S["fw_asym"]]),
           ("same_sizes_other_names", [S["deny"], variant_renamed(S["deny"])])]
     if tier == "thorough":
@@ -148,7 +165,21 @@ def run_pair(job):
             step = len(scheds) / float(max_sched)
             scheds = [scheds[int(i * step)] for i in range(max_sched)]
         res["schedules"] = len(scheds)
-        scen = {i: corpus.build_dict_scenario(sp) for sp, i in zip(specs, ids)}
+        # every Create builds the scenario afresh - through nasim.load_scenario when the file format can express
+        # it (as nasim.load does), through the public constructors otherwise
+        spec_by = {i: sp for sp, i in zip(specs, ids)}
+        yaml_path = {}
+        for i, sp in spec_by.items():
+            if corpus.yaml_expressible(sp):
+                ydir = os.path.join(wd, "y%d" % i)
+                os.makedirs(ydir)
+                yaml_path[i] = corpus.write_yaml(sp, os.path.join(ydir, sp["name"] + ".yaml"))
+
+        def fresh_scenario(i):
+            import nasim
+            if i in yaml_path:
+                return nasim.load_scenario(yaml_path[i])
+            return corpus.build_dict_scenario(spec_by[i])
         cs_by = {i: corpus.cs_of(sp) for sp, i in zip(specs, ids)}
         plans = {}
         for i, cs in cs_by.items():
@@ -165,7 +196,7 @@ def run_pair(job):
                 rec = recs[s]
                 if kind == "create":
                     eid += 1
-                    ev = rec.create(eid, scen[s], False, True, True)
+                    ev = rec.create(eid, fresh_scenario(s), False, True, True)
                     live[slot] = [eid, s, rec.envs[eid], 0]
                 elif kind == "reset":
                     ev = rec.reset(live[slot][0])
